@@ -132,11 +132,12 @@ theorem work_width (a : JoinArgs) (t : TokObj) (toks : TokFn) (l : Frame) (tau :
 /-- TOTAL: after successful validation the call returns a frame -/
 theorem total (a : JoinArgs) (t : TokObj) (toks : TokFn) (cpu : Int) (l r : Frame) (tau : Int)
     (hv : validateJoin "EDIT_DISTANCE" a t = .ok (l, r))
-    (htau : PyV.toInt (PyV.floor a.threshold) = .int tau) :
+    (htau : PyV.toInt (PyV.floor a.threshold) = .int tau)
+    (hb : Props.BodyOK a.toTableArgs l r a.outSimScore) :
     ∃ fr, (editDistanceJoinPy a t toks cpu).result = .ok fr := by
   rw [result_eq a t toks cpu l r tau hv htau]
   obtain ⟨fr, h, _⟩ := runTables_ok a.toTableArgs l r a.allowMissing a.outSimScore cpu (work a t toks tau)
-    (work_width a t toks l tau)
+    (work_width a t toks l tau) hb.lstr hb.rstr hb.noClash
   exact ⟨fr, h⟩
 
 /-- the rows of the result: every payload preceded by its position as `_id` -/
